@@ -1,7 +1,8 @@
 (* C07 - the client side of a CoAP exchange over an unreliable transport.
 
    Transcribed from src/coap_net.c:
-     coap_send_internal / coap_wait_ack      a Confirmable request enters the send queue
+     coap_send_internal / coap_wait_ack      a Confirmable request enters the send queue; a mid
+                                             that wrapped onto last_ack_mid invalidates it
      coap_retransmit                         retransmit_cnt < max_retransmit: send again, else
                                              remove + coap_handle_nack(TOO_MANY_RETRIES)
      coap_dispatch                           ACK: coap_remove_from_queue by mid, an empty ACK
@@ -114,7 +115,10 @@ Definition ex_cli_step (maxr : Z) (c : ex_cli) (i : ex_cin) : ex_cli * list ex_o
           let m := (ex_c_mid c + 1) mod 65536 in
           let k := ex_c_tok c + 1 in
           let q := Build_ex_qent m k sty 0 in
-          (Build_ex_cli (Some q) (ex_c_lcon c) (ex_c_lack c) (ex_c_lres c) m k,
+          (* coap_wait_ack: a new Confirmable whose mid wrapped onto last_ack_mid invalidates
+             that memory (fix of finding C07-F5) *)
+          (Build_ex_cli (Some q) (ex_c_lcon c) (if m =? ex_c_lack c then -1 else ex_c_lack c)
+                        (ex_c_lres c) m k,
            [ExTx (ex_req_of q)])
       end
   | ExTimer =>
